@@ -40,6 +40,13 @@ typedef struct {
 	bool lzma1ext; bool ext_known;
 	// flush script (c06enc): the input is fed in nflush+1 segments; segment k ends with flush_act[k]
 	unsigned nflush; size_t flush_at[4]; lzma_action flush_act[4];
+	// lzma_filters_update() with other lc/lp/pb for a chain ending in LZMA2: before any input (raw and Block
+	// encoders) and after every completed LZMA_SYNC_FLUSH of the script
+	bool upd_lclppb; lzma_options_lzma upd_opt[5];
+	// the configuration was pushed just outside the documented domain: the encoder may refuse it (fine), but if it
+	// accepts it everything else must hold
+	bool maybe_invalid; bool refused;
+	char fdesc[160];
 } rt_case;
 
 static uint64_t visit(int d, int v) { return lzma_verif_visit_counts[d][v]; }
@@ -103,11 +110,18 @@ static bool do_encode(rt_case *c, uint64_t idx, vbuf *out, size_t *consumed, cha
 			ret = lzma_block_buffer_encode(&c->block, NULL, c->in.p, c->in.n, out->p, &pos, bound);
 		}
 		out->n = pos;
-		if (ret != LZMA_OK) { snprintf(err, errsz, "%s returned %s (in=%zu, bound=%zu)", ep_names[c->ep], lzma_ret_name(ret), c->in.n, bound); return false; }
+		if (ret != LZMA_OK) { snprintf(err, errsz, "%s returned %s (in=%zu, bound=%zu)", ep_names[c->ep], lzma_ret_name(ret), c->in.n, bound); c->refused = c->maybe_invalid && (ret == LZMA_OPTIONS_ERROR || ret == LZMA_PROG_ERROR); return false; }
 		return true;
 	}
 	}
-	if (ret != LZMA_OK) { snprintf(err, errsz, "init of %s returned %s", ep_names[c->ep], lzma_ret_name(ret)); lzma_end(&strm); return false; }
+	if (ret != LZMA_OK) { snprintf(err, errsz, "init of %s returned %s", ep_names[c->ep], lzma_ret_name(ret)); lzma_end(&strm); c->refused = c->maybe_invalid; return false; }
+	unsigned nupd = 0;
+	if (c->upd_lclppb && (c->ep == EP_RAW || c->ep == EP_BLOCK)) {
+		lzma_filter uf[LZMA_FILTERS_MAX + 1]; memcpy(uf, c->cfg.filters, sizeof(uf));
+		uf[c->cfg.nfilters - 1].options = &c->upd_opt[nupd++];
+		ret = lzma_filters_update(&strm, uf);
+		if (ret != LZMA_OK) { snprintf(err, errsz, "lzma_filters_update(lc/lp/pb) before the first input returned %s", lzma_ret_name(ret)); lzma_end(&strm); return false; }
+	}
 
 	slice_result sr;
 	if (c->ep == EP_MICROLZMA) {
@@ -143,6 +157,12 @@ static bool do_encode(rt_case *c, uint64_t idx, vbuf *out, size_t *consumed, cha
 				lzma_end(&strm); return false;
 			}
 			pos = c->flush_at[k];
+			if (c->upd_lclppb && c->flush_act[k] == LZMA_SYNC_FLUSH && nupd < 5) {
+				lzma_filter uf[LZMA_FILTERS_MAX + 1]; memcpy(uf, c->cfg.filters, sizeof(uf));
+				uf[c->cfg.nfilters - 1].options = &c->upd_opt[nupd++];
+				lzma_ret ur = lzma_filters_update(&strm, uf);
+				if (ur != LZMA_OK) { snprintf(err, errsz, "lzma_filters_update(lc/lp/pb) after SYNC_FLUSH at %zu returned %s", pos, lzma_ret_name(ur)); lzma_end(&strm); return false; }
+			}
 		}
 		p.seed += 7;
 		slicer_run(&strm, c->in.p + pos, c->in.n - pos, out, &p, &sr);
@@ -450,10 +470,45 @@ static void gen_case(rt_case *c, vrng *r, uint64_t idx)
 	}
 }
 
+static void gen_flush_script(rt_case *c, vrng *r, bool want_update);
+
+// Push one option just outside the documented domain (see rt_case.maybe_invalid).
+static void tweak_invalid(rt_case *c, vrng *r)
+{
+	if (c->cfg.from_preset || c->ep == EP_EASY || c->ep == EP_EASY_BUF) return;
+	lzma_options_lzma *o = &c->cfg.lzma;
+	char what[60];
+	switch (vrng_below(r, 8)) {
+	case 0: { static const uint32_t ds[] = { 0, 1, 255, 256, 1024, 3000, 4095 }; o->dict_size = ds[vrng_below(r, 7)]; snprintf(what, sizeof(what), "dict_size=%u", o->dict_size); break; }
+	case 1: o->lc = 4; o->lp = 1 + vrng_below(r, 4); snprintf(what, sizeof(what), "lc=4,lp=%u", o->lp); break;
+	case 2: o->pb = 5 + vrng_below(r, 3); snprintf(what, sizeof(what), "pb=%u", o->pb); break;
+	case 3: { static const uint32_t nl[] = { 0, 1, 274, 1000 }; o->nice_len = nl[vrng_below(r, 4)]; snprintf(what, sizeof(what), "nice_len=%u", o->nice_len); break; }
+	case 4: o->mode = vrng_chance(r, 1, 2) ? 0 : 3; snprintf(what, sizeof(what), "mode=%d", (int)o->mode); break;
+	case 5: { static const int mfs[] = { 0x00, 0x02, 0x05, 0x10, 0x11, 0x15 }; o->mf = mfs[vrng_below(r, 6)]; snprintf(what, sizeof(what), "mf=0x%x", (unsigned)o->mf); break; }
+	case 6: o->lp = 5; o->lc = 0; snprintf(what, sizeof(what), "lp=5"); break;
+	default: {
+		bool done = false;
+		for (unsigned i = 0; i < c->cfg.nfilters && !done; ++i) if (c->cfg.filters[i].id == LZMA_FILTER_DELTA) {
+			lzma_options_delta *d = c->cfg.filters[i].options; d->dist = vrng_chance(r, 1, 2) ? 0 : 257; snprintf(what, sizeof(what), "delta.dist=%u", d->dist); done = true;
+		}
+		if (!done) { o->dict_size = 4095; snprintf(what, sizeof(what), "dict_size=4095"); }
+		break;
+	}
+	}
+	c->maybe_invalid = true;
+	size_t l = strlen(c->cfg.desc);
+	snprintf(c->cfg.desc + l, sizeof(c->cfg.desc) - l, ",~outside-domain:%s", what);
+}
+
 static void run_case(uint64_t idx)
 {
 	vrng r; vrng_init(&r, A.seed, 0xC01, idx, 0);
 	rt_case c; gen_case(&c, &r, idx);
+	// a quarter of the streaming cases carry a flush script (several Blocks, sync-flushed chunks), half of those with
+	// lc/lp/pb updates; one case in 25 uses a configuration just outside the documented domain
+	if ((c.ep == EP_EASY || c.ep == EP_STREAM || c.ep == EP_STREAM_MT || c.ep == EP_RAW || c.ep == EP_BLOCK) && vrng_chance(&r, 1, 4))
+		gen_flush_script(&c, &r, vrng_chance(&r, 1, 2));
+	if (vrng_chance(&r, 1, 25)) { tweak_invalid(&c, &r); if (c.maybe_invalid) c.bias = 0; }
 	hx_case_begin(idx);
 	char err[400] = "";
 	vbuf comp = {0}, comp2 = {0}, dec = {0};
@@ -468,9 +523,11 @@ static void run_case(uint64_t idx)
 	bool ok = do_encode(&c, idx, &comp, &consumed, err, sizeof(err));
 	hx_eval();
 	char key[200];
+	if (!ok && c.refused) { hx_count("outside_domain_refused", 1); goto done; }
+	if (c.maybe_invalid && ok) hx_count("outside_domain_accepted", 1);
 	if (!ok) {
 		snprintf(key, sizeof(key), "encode-failed|%s", ep_names[c.ep]);
-		hx_violation(PROP, key, idx, "%s; cfg=%s kind=%s size=%zu", err, c.cfg.desc, gd_names[c.kind], c.in.n);
+		hx_violation(PROP, key, idx, "%s; cfg=%s kind=%s size=%zu script:%s", err, c.cfg.desc, gd_names[c.kind], c.in.n, c.fdesc[0] ? c.fdesc : " none");
 		goto done;
 	}
 	if (c.bias) {
@@ -503,7 +560,7 @@ static void run_case(uint64_t idx)
 	hx_eval();
 	if (!ok) {
 		snprintf(key, sizeof(key), "decode-failed|%s", ep_names[c.ep]);
-		hx_violation(PROP, key, idx, "%s; cfg=%s kind=%s size=%zu comp=%zu", err, c.cfg.desc, gd_names[c.kind], c.in.n, comp.n);
+		hx_violation(PROP, key, idx, "%s; cfg=%s kind=%s size=%zu comp=%zu script:%s", err, c.cfg.desc, gd_names[c.kind], c.in.n, comp.n, c.fdesc[0] ? c.fdesc : " none");
 		goto done;
 	}
 	if (dec.n != consumed || (consumed && memcmp(dec.p, c.in.p, consumed) != 0)) {
@@ -536,6 +593,52 @@ done:
 
 // C06 (encoder half): same data + same options => identical bytes, whatever
 // the slicing, thread count, timeout, or textual-vs-struct filter chain.
+// Flush script: the same flush actions at the same input offsets in every run of the case. want_update adds an
+// lc/lp/pb change after every completed sync flush (and before the first input for raw/Block encoders).
+static void gen_flush_script(rt_case *c, vrng *r, bool want_update)
+{
+	c->nflush = 0; c->fdesc[0] = 0; c->upd_lclppb = false;
+	bool sync_ok = true, last_lzma2 = c->ep == EP_EASY || c->cfg.filters[c->cfg.nfilters - 1].id == LZMA_FILTER_LZMA2;
+	// LZMA_SYNC_FLUSH is honoured by LZMA2 and delta only (LZMA1 and the BCJ filters refuse it: C12's subject)
+	if (c->ep != EP_EASY)
+		for (unsigned i = 0; i < c->cfg.nfilters; ++i) {
+			lzma_vli id = c->cfg.filters[i].id;
+			if (id != LZMA_FILTER_LZMA2 && id != LZMA_FILTER_DELTA) sync_ok = false;
+		}
+	lzma_action acts[3]; unsigned na = 0;
+	if ((c->ep == EP_EASY || c->ep == EP_STREAM || c->ep == EP_RAW || c->ep == EP_BLOCK) && sync_ok) acts[na++] = LZMA_SYNC_FLUSH;
+	if (c->ep == EP_EASY || c->ep == EP_STREAM || c->ep == EP_STREAM_MT) { acts[na++] = LZMA_FULL_FLUSH; acts[na++] = LZMA_FULL_BARRIER; }
+	size_t w = 0;
+	if (na && c->in.n > 0) {
+		c->nflush = 1 + vrng_below(r, 3);
+		size_t early = c->in.n < 6000 ? c->in.n : 6000;
+		for (unsigned k = 0; k < c->nflush; ++k) c->flush_at[k] = vrng_chance(r, 3, 5) ? (size_t)vrng_below64(r, early + 1) : (size_t)vrng_below64(r, c->in.n + 1);
+		for (unsigned i = 0; i < c->nflush; ++i) for (unsigned j = i + 1; j < c->nflush; ++j) if (c->flush_at[j] < c->flush_at[i]) { size_t t = c->flush_at[i]; c->flush_at[i] = c->flush_at[j]; c->flush_at[j] = t; }
+		for (unsigned k = 0; k < c->nflush; ++k) {
+			c->flush_act[k] = acts[vrng_below(r, na)];
+			if (acts[0] == LZMA_SYNC_FLUSH && vrng_chance(r, 1, 2)) c->flush_act[k] = LZMA_SYNC_FLUSH;
+			if (w < sizeof(c->fdesc) - 40) w += (size_t)snprintf(c->fdesc + w, sizeof(c->fdesc) - w, " %s@%zu", c->flush_act[k] == LZMA_SYNC_FLUSH ? "sync" : c->flush_act[k] == LZMA_FULL_FLUSH ? "full" : "barrier", c->flush_at[k]);
+		}
+		hx_count("flush_script_cases", 1);
+		if (c->flush_at[0] < 4400) hx_count("flush_script_early", 1);
+	}
+	// the struct-form chain must be in use (EP_EASY and preset-form MT take a preset number) and carry no preset
+	// dictionary (it cannot be changed by an update)
+	if (want_update && last_lzma2 && sync_ok && c->ep != EP_EASY && c->ep != EP_STREAM_MT && c->cfg.lzma.preset_dict == NULL
+			&& (c->ep == EP_RAW || c->ep == EP_BLOCK || c->ep == EP_STREAM)) {
+		bool any_sync = false; for (unsigned k = 0; k < c->nflush; ++k) if (c->flush_act[k] == LZMA_SYNC_FLUSH) any_sync = true;
+		if (any_sync || c->ep == EP_RAW || c->ep == EP_BLOCK) {
+			c->upd_lclppb = true;
+			for (unsigned u = 0; u < 5; ++u) {
+				c->upd_opt[u] = c->cfg.lzma;
+				c->upd_opt[u].lc = vrng_below(r, 5); c->upd_opt[u].lp = vrng_below(r, 5 - c->upd_opt[u].lc); c->upd_opt[u].pb = vrng_below(r, 5);
+			}
+			if (w < sizeof(c->fdesc) - 60) w += (size_t)snprintf(c->fdesc + w, sizeof(c->fdesc) - w, " +lc/lp/pb updates (first lc%u lp%u pb%u)", c->upd_opt[0].lc, c->upd_opt[0].lp, c->upd_opt[0].pb);
+			hx_count("lclppb_update_cases", 1);
+		}
+	}
+}
+
 static void c06enc_case(uint64_t idx)
 {
 	vrng r; vrng_init(&r, A.seed, 0xC06E, idx, 0);
@@ -568,30 +671,8 @@ static void c06enc_case(uint64_t idx)
 	uint32_t thr0 = c.threads, to0 = c.timeout;
 	// a third of the cases carry a flush script: the same flush actions at the same input offsets in every run,
 	// only the slicing between them differs
-	c.nflush = 0;
-	char fdesc[120] = "";
-	if (vrng_chance(&r, 1, 3) && c.in.n > 0) {
-		bool sync_ok = true;
-		// LZMA_SYNC_FLUSH is honoured by LZMA2 and delta only (LZMA1 and the BCJ filters refuse it: C12's subject)
-		if (c.ep != EP_EASY)
-			for (unsigned i = 0; i < c.cfg.nfilters; ++i) {
-				lzma_vli id = c.cfg.filters[i].id;
-				if (id != LZMA_FILTER_LZMA2 && id != LZMA_FILTER_DELTA) sync_ok = false;
-			}
-		lzma_action acts[3]; unsigned na = 0;
-		if ((c.ep == EP_EASY || c.ep == EP_STREAM || c.ep == EP_RAW || c.ep == EP_BLOCK) && sync_ok) acts[na++] = LZMA_SYNC_FLUSH;
-		if (c.ep == EP_EASY || c.ep == EP_STREAM || c.ep == EP_STREAM_MT) { acts[na++] = LZMA_FULL_FLUSH; acts[na++] = LZMA_FULL_BARRIER; }
-		if (na) {
-			c.nflush = 1 + vrng_below(&r, 3);
-			size_t early = c.in.n < 6000 ? c.in.n : 6000;
-			for (unsigned k = 0; k < c.nflush; ++k) c.flush_at[k] = vrng_chance(&r, 3, 5) ? (size_t)vrng_below64(&r, early + 1) : (size_t)vrng_below64(&r, c.in.n + 1);
-			for (unsigned i = 0; i < c.nflush; ++i) for (unsigned j = i + 1; j < c.nflush; ++j) if (c.flush_at[j] < c.flush_at[i]) { size_t t = c.flush_at[i]; c.flush_at[i] = c.flush_at[j]; c.flush_at[j] = t; }
-			size_t w = 0;
-			for (unsigned k = 0; k < c.nflush; ++k) { c.flush_act[k] = acts[vrng_below(&r, na)]; if (acts[0] == LZMA_SYNC_FLUSH && vrng_chance(&r, 1, 2)) c.flush_act[k] = LZMA_SYNC_FLUSH; w += (size_t)snprintf(fdesc + w, sizeof(fdesc) - w, " %s@%zu", c.flush_act[k] == LZMA_SYNC_FLUSH ? "sync" : c.flush_act[k] == LZMA_FULL_FLUSH ? "full" : "barrier", c.flush_at[k]); }
-			hx_count("flush_script_cases", 1);
-			if (c.flush_at[0] < 4400) hx_count("flush_script_early", 1);
-		}
-	}
+	if (vrng_chance(&r, 1, 3)) gen_flush_script(&c, &r, vrng_chance(&r, 1, 3));
+	const char *fdesc = c.fdesc;
 	hx_sample("c06enc ep=%s cfg=%s kind=%s size=%zu threads=%u bs=%" PRIu64 "%s%s", ep_names[c.ep], c.cfg.desc, gd_names[c.kind], c.in.n, c.threads, c.block_size, fdesc[0] ? " flush:" : "", fdesc);
 	bool ok = do_encode(&c, idx, &canon, &consumed, err, sizeof(err));
 	hx_eval();
